@@ -13,6 +13,10 @@ Bounded-exhaustive exploration on the real `opticomlib.devices.DAC` / `SAMPLER`:
 * part `gauss.iso`: sps in {8,9,16,17,32,64,128} x EVERY integer T in [ceil(sps/2), 2*sps] x m in {1,2,3,4} on isolated
                     ones (single-slot word, first / last / inner slot, two ones in one word): peak position / peak value
                     / half-maximum width; EVERY sps in 8..128 at the limits of T and m; defaults of T, m, c.
+* part `gauss.mix`: words that hold BOTH an isolated one and runs of 2, 3, ... adjacent ones elsewhere (either order, between two
+                    runs, at the record edges) x the same full (sps, T, m) lattice: the clauses of every isolated one do not
+                    depend on what is sent in far-away slots; inverse at k = sps//2 for T <= sps.  `rect.mix`: the same
+                    words in NRZ / RZ against the slot reference.
 * part `gauss.inv`: every word x T in [ceil(sps/2), sps] x m: sampling at k = sps//2 returns the word.
 * part `long`     : structured words of length 7..4097 (primes, 2^n, 2^n+-1) in NRZ / RZ / Gaussian shape.
 * part `sampler`  : SAMPLER on generic records (every sample dtype, with / without / zero / mixed-dtype noise, scales
@@ -407,6 +411,110 @@ def gauss_iso_case(case):
                nontrivial=(sps, T, m, repr(Vout), repr(bias), word, repr(opts)), stats={'dac_calls': 1, 'isolated_ones': len(obs)},
                payload=tuple(pay))
 
+# ------------------------------------------------------------------ mixed words: an isolated one AND runs of ones elsewhere
+ISO_GAP = 6      # "isolated" in the sense of ISO_WORDS: at least 6 empty slots (or the record edge) on each side of the one
+
+
+def isolated_ones(bits, gap=ISO_GAP):
+    """slots of the ones that have no other one within `gap` slots on either side (the record edge may be nearer)"""
+    bits = np.asarray(bits).astype(int)
+    L = len(bits)
+    c = np.concatenate([[0], np.cumsum(bits)])
+    i = np.nonzero(bits)[0]
+    inside = c[np.minimum(L, i + gap + 1)] - c[np.maximum(0, i - gap)]
+    return i[inside == 1].tolist()
+
+
+def mix_words(runs, gaps=(ISO_GAP,)):
+    """words that contain BOTH an isolated one and other, overlapping content `gap` empty slots away: a run of r adjacent
+    ones after / before the isolated one (every r of `runs`), the isolated one between two different runs, two isolated
+    ones around a run, isolated ones in the first and the last slot, runs that touch both record edges, ones one slot apart"""
+    Z = lambda n: '0' * n
+    out = []
+    for g in gaps:
+        for r in runs:
+            R = '1' * r
+            out += [Z(3) + '1' + Z(g) + R + Z(3), Z(3) + R + Z(g) + '1' + Z(3)]
+        out += [Z(2) + '11' + Z(g) + '1' + Z(g) + '111' + Z(2), Z(3) + '1' + Z(g) + '1111' + Z(g) + '1' + Z(3),
+                '1' + Z(g) + '111' + Z(g) + '1', '11' + Z(g) + '1' + Z(g) + '11111',
+                Z(3) + '1' + Z(g) + '1011' + Z(3), Z(3) + '101' + Z(g) + '1' + Z(3)]
+    return list(dict.fromkeys(out))
+
+
+MIX_WORDS = {'quick': mix_words(range(2, 6)), 'thorough': mix_words(range(2, 9), (6, 7, 9))}
+MIX_WORDS['thin'] = [MIX_WORDS['quick'][i] for i in (2, 1, 8, 10)]     # 1..111, 11..1, 11..1..111, 1..111..1 (record edges)
+
+
+def iso_clauses(y, bits, sps, Te, tag, viol, pay=None):
+    """the three Gaussian clauses on EVERY isolated one of the word (y: normalised waveform); returns the measurements"""
+    L, obs = len(bits), []
+    for slot in isolated_ones(bits):
+        pos, centre, mx, width = measure_iso(y, slot, sps, Te, L)
+        where = f'isolated one in slot {slot} of {L}'
+        if not abs(pos - centre) <= 1.0:
+            viol.append((f'gauss:peak-position:{par(sps)}', f'{tag} {where}: peak at sample {pos}, slot centre {centre}: off by {pos - centre:+.2f} samples'))
+        if not abs(mx - 1.0) <= 0.05:
+            viol.append(('gauss:peak-value', f'{tag} {where}: peak-bias = {mx:.4f}*Vout, more than 5 % from Vout'))
+        if width == 'missing':
+            viol.append(('gauss:fwhm', f'{tag} {where}: no half-maximum crossing on both sides of the peak'))
+        elif width is not None and not abs(width - Te) <= 1.0:
+            viol.append(('gauss:fwhm', f'{tag} {where}: half-maximum width {width:.3f} samples, T={Te}: off by {width - Te:+.3f}'))
+        obs.append((slot, round(pos, 3), round(mx, 9), width if not isinstance(width, float) else round(width, 6)))
+        if pay is not None:
+            pay[0], pay[1] = max(pay[0], abs(pos - centre)), max(pay[1], abs(mx - 1.0))
+            if isinstance(width, float):
+                pay[2] = max(pay[2] or 0.0, abs(width - Te))
+    return obs
+
+
+def gauss_mix_case(case):
+    """case = (sps, T, m, Vout, bias, word set): every mixed word of the set at one (sps, T, m) point (T / m None = omitted).
+    The isolated ones of a mixed word carry the same three clauses as a one that is alone in its record - what is sent
+    `ISO_GAP` or more slots away (beyond the measuring window and, for T <= 2*sps, beyond every resolved tail) does not
+    enter the statement; the inverse at k = sps//2 is claimed for T <= sps on the whole word"""
+    from opticomlib.devices import DAC, SAMPLER
+    sps, T, m, Vout_s, bias_s, wset = case
+    gv_reset(sps=sps, R=1e9)
+    Vout, bias = mk(Vout_s), mk(bias_s)
+    V, b = eff(Vout, bias)
+    kw = {'pulse_shape': 'gaussian'}
+    if T is not None:
+        kw['T'] = T
+    if m is not None:
+        kw['m'] = m
+    Te = sps if T is None else T
+    viol, obs, pay = [], [], [0.0, 0.0, None]
+    st = {'dac_calls': 0, 'sampler_calls': 0, 'inversions': 0, 'isolated_ones': 0}
+    forms = FORMS + FORMS_EXT
+    for wi, word in enumerate(MIX_WORDS[wset]):
+        form = forms[(wi + sps + Te) % len(forms)]
+        bits = np.array([int(c) for c in word])
+        L = len(bits)
+        x = DAC(make_form(word, form), bias=bias, Vout=Vout, **kw)
+        st['dac_calls'] += 1
+        sig = np.asarray(x.signal)
+        tag = f'sps={sps} T={T} m={m} Vout={Vout!r} bias={bias!r} mixed word={word!r} form={form}'
+        if sig.ndim != 1 or sig.shape[0] != L * sps:
+            viol.append((f'len:gauss:{par(sps)}', f'{tag}: {sig.shape} samples, expected {L * sps}'))
+            continue
+        y = (np.real(sig) - b) / V
+        o = iso_clauses(y, bits, sps, Te, tag, viol, pay)
+        st['isolated_ones'] += len(o)
+        obs.append((word, tuple(o)))
+        if Te <= sps:
+            k = sps // 2
+            ys = np.asarray(SAMPLER(x, k).signal)
+            st['sampler_calls'] += 1
+            want = sig[k + sps * np.arange(L)]
+            if ys.shape != want.shape or not np.array_equal(ys, want):
+                viol.append(('sampler:signal', f'{tag} k={k}: SAMPLER output differs from samples k,k+sps,..'))
+                continue
+            st['inversions'] += 1
+            got = threshold_bits(ys, V, b)
+            if not np.array_equal(got, bits.astype(bool)):
+                viol.append((f'inverse:gauss:{par(sps)}', f'{tag} k={k}: threshold decision {got.astype(int).tolist()} != bits'))
+    return res(viol=_dedup(viol), obs=(case, tuple(obs)), nontrivial=case, stats=st, payload=tuple(pay))
+
 
 def gauss_inv_case(case):
     """case = (sps, T, m, Vout, bias, L): every word of length L, sampled at k = sps//2"""
@@ -449,12 +557,13 @@ def gauss_inv_case(case):
 
 
 # ------------------------------------------------------------------ part long (structured long words)
-LONG_PATTERNS = ['zeros', 'ones', 'alt01', 'alt10', 'first', 'last', 'mid', 'sparse8', 'lfsr7', 'seeded']
+LONG_PATTERNS = ['zeros', 'ones', 'alt01', 'alt10', 'first', 'last', 'mid', 'sparse8', 'lfsr7', 'seeded', 'mixed']
 LONG_FORMS = ['str', 'list', 'ndarray_uint8', 'ndarray_bool', 'binary_sequence', 'ndarray_int', 'tuple', 'str_spaced', 'ndarray_float64']
 
 
 def long_word(L, pattern, seed):
-    """bits (int array) of a structured word; 'sparse8': an isolated one every 8 slots (from slot 3)"""
+    """bits (int array) of a structured word; 'sparse8': an isolated one every 8 slots (from slot 3); 'mixed': isolated ones
+    alternating with runs of 2, 3, .. 7 adjacent ones, 6 empty slots between the groups (cut at L slots)"""
     i = np.arange(L)
     if pattern == 'zeros':
         return np.zeros(L, dtype=int)
@@ -479,6 +588,12 @@ def long_word(L, pattern, seed):
         return np.array(out, dtype=int)
     if pattern == 'seeded':
         return np.random.RandomState((seed * 7919 + L) % (2 ** 31)).randint(0, 2, L)
+    if pattern == 'mixed':
+        w, b = '000', 0
+        while len(w) < L:
+            w += '1' + '0' * ISO_GAP + '1' * (2 + b % 6) + '0' * ISO_GAP
+            b += 1
+        return np.array([int(c) for c in w[:L]], dtype=int)
     raise KeyError(pattern)
 
 
@@ -533,9 +648,12 @@ def long_case(case):
     else:
         real = np.real(sig)
         y = (real - b) / V
-        # every isolated one of the word: the Gaussian clauses of the statement
-        if pattern in ('first', 'last', 'mid', 'sparse8'):
-            for slot in np.nonzero(bits)[0].tolist():
+        # every isolated one of the word (no other one within ISO_GAP slots), whatever else the word holds: the Gaussian clauses
+        iso = isolated_ones(bits)
+        if pattern in ('first', 'last', 'mid', 'sparse8') and len(iso) != int(bits.sum()):
+            raise AssertionError(f'{pattern}: every one of this pattern is meant to be isolated')
+        if iso:
+            for slot in iso:
                 pos, centre, mx, width = measure_iso(y, slot, sps, T, L)
                 where = f'one in slot {slot}'
                 if not abs(pos - centre) <= 1.0:
@@ -546,7 +664,7 @@ def long_case(case):
                     viol.append(('gauss:fwhm', f'{tag} {where}: no half-maximum crossing on both sides of the peak'))
                 elif width is not None and not abs(width - T) <= 1.0:
                     viol.append(('gauss:fwhm', f'{tag} {where}: half-maximum width {width:.3f} samples, T={T}'))
-            st['isolated_ones'] = int(bits.sum())
+            st['isolated_ones'] = len(iso)
         # the inverse is claimed at k = sps//2 (checked for T <= sps, see gauss.inv); the other instants: sampling only
         inv = (bits, V, b, sps, f'inverse:gauss:{par(sps)}') if T <= sps else None
         ks = [sps // 2]
@@ -1072,6 +1190,17 @@ def run(ctx):
     cases.sort(key=lambda c: c[0])
     ctx.pmap('rect', rect_case, [c[1] for c in cases], horizon=120, chunk=64)
 
+    # ---- the mixed words (an isolated one AND runs of adjacent ones elsewhere) in NRZ / RZ: the level of a slot does not depend
+    # on what the other slots carry
+    wset = 'quick' if quick else 'thorough'
+    mix_amps = amps + [(0.5, 0.25), (IN48, -IN48), (-1e-3, -47.5)]
+    rm = [(shape, sps, Vout, bias, word, ctx.seed, 'first') for word in MIX_WORDS[wset] for sps in sps_rect for (Vout, bias) in mix_amps
+          for shape in ('nrz', 'rz')]
+    ctx.rule(f'rect.mix: the {len(MIX_WORDS[wset])} mixed words of gauss.mix (an isolated one and runs of adjacent ones / ones one slot apart elsewhere, '
+             f'{min(map(len, MIX_WORDS[wset]))}..{max(map(len, MIX_WORDS[wset]))} slots) x sps {sps_rect} x (Vout,bias) {mix_amps} x nrz / rz x every container form: whole waveform '
+             f'against the slot reference, SAMPLER at every instant on the first form, inverse, chain')
+    ctx.pmap('rect.mix', rect_case, rm, horizon=120)
+
     # ---- Gaussian, isolated one
     g_amps = [(1, 0), (-3, -2)] if quick else AMPS
     iso = []
@@ -1119,6 +1248,42 @@ def run(ctx):
             'fwhm_error_samples': round(max(p[2] for p in pay if p[2] is not None), 4)}
         print(f"[C05] gauss.iso worst: {ctx.extra['gauss_iso_worst']}", flush=True)
 
+    # ---- Gaussian, mixed words: isolated ones with runs of adjacent ones elsewhere in the same record
+    mix = []
+    for (Vout, bias) in ([(1, 0)] if quick else [(1, 0), (-3, -2), (47.9, -47.9)]):
+        for sps in SPS_GAUSS:
+            for T in range(math.ceil(sps / 2), 2 * sps + 1):
+                for m in (1, 2, 3, 4):
+                    mix.append((sps, T, m, Vout, bias, wset))
+    n_mix_lattice = len(mix)
+    for sps in SPS_GAUSS:                                  # further amplitudes at the limits of T and m
+        for T in sorted({math.ceil(sps / 2), sps, 2 * sps}):
+            for m in (1, 4):
+                for (Vout, bias) in [(-3, -2), (None, None), (IN48, -IN48), (-1e-3, -47.5), (('@np', 'float64', 2.5), ('@np', 'float64', -1.5))]:
+                    mix.append((sps, T, m, Vout, bias, wset))
+    for sps in range(8, 129):                              # every sps of the quantifier at the limits, and with T / m omitted
+        if sps not in SPS_GAUSS:
+            for T in sorted({math.ceil(sps / 2), sps, 2 * sps}):
+                for m in (1, 4):
+                    mix.append((sps, T, m, 1, 0, 'thin'))
+        mix.append((sps, None, None, 1, 0, 'thin'))
+    ctx.rule(f'gauss.mix: mixed words = an isolated one (>= {ISO_GAP} empty slots, or the record edge, on each side: the sense of the isolated ones of '
+             f'gauss.iso) AND other content elsewhere in the SAME record: a run of r adjacent ones after / before it (r in '
+             f'{"2..5" if quick else "2..8, gap 6 / 7 / 9"}), the isolated one between two different runs, two isolated ones around a run, isolated ones in the '
+             f'first and last slot, runs touching the record edges, ones one slot apart ({len(MIX_WORDS[wset])} words, container form rotating) x sps '
+             f'{SPS_GAUSS} x EVERY integer T in [ceil(sps/2), 2*sps] x m in 1..4 ({n_mix_lattice} lattice cases); further amplitudes at the T / m limits; '
+             f'EVERY sps in 8..128 at the limits and with T, m omitted on {len(MIX_WORDS["thin"])} of the words: every isolated one of the word satisfies the '
+             f'three clauses of gauss.iso (same measuring rules and tolerances); T <= sps: SAMPLER at k = sps//2 and the threshold give the word back')
+    ctx.assume(f'an "isolated 1" is a one with no other one within {ISO_GAP} slots on either side; the clauses about it are clauses about its own slot '
+               f'neighbourhood (measuring window: 3 slots on each side) and do not depend on what is transmitted further away in the record')
+    payx = [p for p in ctx.pmap('gauss.mix', gauss_mix_case, mix, horizon=120, chunk=8) if p]
+    if payx:
+        ctx.extra['gauss_mix_worst'] = {
+            'peak_position_error_samples': round(max(p[0] for p in payx), 4),
+            'peak_value_error_rel': round(max(p[1] for p in payx), 5),
+            'fwhm_error_samples': round(max(p[2] for p in payx if p[2] is not None), 4)}
+        print(f"[C05] gauss.mix worst: {ctx.extra['gauss_mix_worst']}", flush=True)
+
     # ---- Gaussian, inversion at k = sps//2 for T <= sps
     i_amps = [(1, 0)] if quick else [(1, 0), (-3, -2), (47.9, -47.9)]
     inv = []
@@ -1164,7 +1329,8 @@ def run(ctx):
                             lc.append(('gaussian', sps, L, pattern, 0.5, 0.25, T, m, ctx.seed, fi + 2 + m))
     ctx.rule(f'long: structured words {LONG_PATTERNS} of length {long_L} x sps {long_sps} (+128 for the shorter words) x NRZ / RZ / Gaussian '
              f'(T in {{ceil(sps/2), sps, 2sps}}, sps >= 8), container form rotating over {LONG_FORMS}: length, every slot (NRZ/RZ), the '
-             f'Gaussian clauses on every isolated one (first / last / middle slot, a one every 8 slots), SAMPLER at the instants '
+             f'Gaussian clauses on every isolated one of every pattern (first / last / middle slot, a one every 8 slots, the isolated ones '
+             f'between the runs of `mixed` and any of the seeded word), SAMPLER at the instants '
              f'{{0,1,sps//2-1,sps//2,sps-2,sps-1}} with noise, inverse (Gaussian: k=sps//2, T<=sps)')
     ctx.assume('long: the slot reference is built from index arithmetic (slot, j = divmod(i, sps)); the pseudo-random word comes from an own '
                '7-bit shift register / numpy RandomState(VERIF_SEED), not from the library')
